@@ -258,12 +258,13 @@ class Engine:
     def feasible(self, st):
         if not st.pc:
             return True
+        # cheap pruning only (quantifier-free part of the path condition, 300 ms): an unpruned infeasible path just
+        # yields obligations with contradictory hypotheses
         s = z3.Solver()
-        s.set("timeout", 1500)
-        for a in self.axioms + SQ.all_axioms():
-            s.add(a)
+        s.set("timeout", 300)
         for h in st.pc:
-            s.add(h)
+            if not z3.is_quantifier(h) and "ForAll" not in h.sexpr()[:0]:
+                s.add(h)
         return s.check() != z3.unsat
 
     # ------------------------------------------------------------ truthiness
@@ -1647,6 +1648,22 @@ class Engine:
 
     def havoc(self, st, names, attrs, body):
         has_yield = any(isinstance(n, (ast.Yield, ast.YieldFrom)) for s in body for n in ast.walk(s))
+        # mutable objects: re-bound in the body, or receivers of any method call / attribute store in the body
+        recv = set()
+        for s_ in body:
+            for n_ in ast.walk(s_):
+                if isinstance(n_, ast.Call) and isinstance(n_.func, ast.Attribute) and isinstance(n_.func.value, ast.Name):
+                    recv.add(n_.func.value.id)
+                if isinstance(n_, ast.Attribute) and isinstance(n_.ctx, ast.Store) and isinstance(n_.value, ast.Name):
+                    recv.add(n_.value.id)
+        for nm in sorted(set(names) | recv):
+            cur = st.env.get(nm)
+            if isinstance(cur, MObj) and nm not in self.c.frame_objects:
+                st.env[nm] = self.fresh_like(st, cur, nm)
+            elif isinstance(cur, MObj) and nm in recv and self.c.modifies is not None:
+                for a in self.c.modifies:
+                    if a in cur.attrs:
+                        cur.attrs[a] = self.fresh_like(st, cur.attrs[a], f"{nm}.{a}")
         for nm in sorted(names):
             if nm in st.env and not isinstance(st.env[nm], (Closure, PyConst)):
                 cur = st.env[nm]
